@@ -26,12 +26,12 @@
   With both fixed, no bound on length or capacity is needed any more (`FlowStats_decodeInstrs_no_spin` now rests on
   the stability of `Len()` for decoded instructions instead of a capacity bound).
 
-  REMAINING FINDING, outside the reach of Parse (last section): the exported decoder BundleAdd.UnmarshalBinary, called
-  directly, loops for ever on a 65545-byte input (`BundleAdd_unmarshal_spins`, reproduced on the Go library:
-  `dec BundleAdd <hex> 65545 => spin`): BundlePropertyExperimenter.Len() = (12 + 65517 + 7) / 8 * 8 wraps to 0.  Parse
-  never hands BundleAdd more than 65519 bytes (`data[16:Header.Length]`), which is exactly the hypothesis
-  `d.len ≤ 65528` of `BundleAdd_unmarshalWith_no_spin`; that hypothesis is therefore necessary for the decoder and
-  always satisfied inside Parse.
+    3. Outside the reach of Parse: the exported decoder BundleAdd.UnmarshalBinary, called directly on a 65545-byte
+       input (an 8-byte echo request as embedded message, then one property with Length 65529), looped for ever:
+       BundlePropertyExperimenter.Len() = (12 + 65517 + 7) / 8 * 8 = 0 (uint16).  Found when trying to remove the
+       bound `d.len ≤ 65528` from `BundleAdd_unmarshalWith_no_spin`; proved in Lean as a counterexample
+       (`BundleAdd_unmarshal_spins`, removed), reproduced on the Go library (`dec BundleAdd <hex> 65545 => spin`);
+       fixed by library commit f8f0b2c (the property loop refuses a property of size 0).  The bound is gone.
 
   What is proved (no assumption on length fields, types or nesting):
     * `C07_parse_no_panic`       Parse never panics, unconditionally (recover()).
@@ -48,7 +48,6 @@
 -/
 import OFV.Model.All
 import OFV.Lemmas.ParseFlowStats
-import OFV.Lemmas.ParseSpin
 import OFV.Props.C08
 namespace OFV.Props.C07
 open OFV OFV.Go OFV.Model
@@ -104,16 +103,12 @@ theorem TLVTableMod_unmarshal_no_spin (recv : V) (d : Slice) : TLVTableMod.unmar
 theorem TLVTableReply_unmarshal_no_spin (recv : V) (d : Slice) : TLVTableReply.unmarshal recv d ≠ .spin :=
   (TLVTableReply_unmarshal_ns recv d).1
 
-/-- BundleAdd: the property loop advances by at least 16 bytes per property when the data is at most 65528 bytes long,
-    given that the nested Parse does not spin.  Inside Parse the data is `data[16:Header.Length]` of an experimenter
-    message, at most 65519 bytes.  The bound protects against the uint16 wrap-around of
-    BundlePropertyExperimenter.Len() = (12 + len(data) + 7) / 8 * 8 for a property Length ≥ 65529, and is necessary:
-    see `BundleAdd_unmarshal_spins`. -/
+/-- BundleAdd: the property loop refuses a property of size 0, so it advances on every iteration; no bound on the data,
+    given that the nested Parse does not spin. -/
 theorem BundleAdd_unmarshalWith_no_spin (parseF : Slice → R V) (childLen : MsgLenF)
-    (hparse : ∀ d : Slice, d.WF → parseF d ≠ .spin)
-    (recv : V) (d : Slice) (hlen : d.len ≤ 65528) :
+    (hparse : ∀ d : Slice, d.WF → parseF d ≠ .spin) (recv : V) (d : Slice) :
     BundleAdd.unmarshalWith parseF childLen recv d ≠ .spin :=
-  (BundleAdd_unmarshalWith_ns parseF childLen (fun x h1 => NS.of_ne (hparse x h1)) recv d hlen).1
+  (BundleAdd_unmarshalWith_ns parseF childLen (fun x h1 => NS.of_ne (hparse x h1)) recv d).1
 
 /-- The instruction loop of a FlowStats record terminates on every well-formed slice: it refuses an instruction of
     size 0 and advances by a second `Len()` call, which returns the same non-zero size because `Len()` of every
@@ -167,15 +162,5 @@ theorem C07_parse_total (depth : Nat) (b : Slice) (hwf : b.WF) : Res.Total (pars
 
 /-- the hypothesis is satisfiable: any byte string in an exact buffer, e.g. an 8-byte echo request -/
 example : (Slice.exact [4, 2, 0, 8, 0, 0, 0, 1]).WF := Slice.exact_wf _
-
-/-! ### outside the reach of Parse: the BundleAdd decoder called directly is not total -/
-
-/-- FINDING (genuine defect of an exported decoder, not of Parse).  `new(BundleAdd).UnmarshalBinary` loops for ever on
-    the 65545-byte input `bundleFrame pd` = bundle id, pad, flags, an 8-byte echo request, then one property
-    `ff ff ff f9 00000001 00000002` + 65517 payload bytes `pd` (arbitrary): the property's `Len()` wraps to 0.
-    So the bound in `BundleAdd_unmarshalWith_no_spin` cannot be dropped. -/
-theorem BundleAdd_unmarshal_spins (pd : Bytes) (hpd : pd.length = 65517) :
-    BundleAdd.unmarshal BundleAdd.zero ⟨bundleFrame pd, 65545⟩ = .spin :=
-  bundleAdd_spin pd hpd
 
 end OFV.Props.C07
